@@ -200,7 +200,10 @@ func (c *channel) Close(err error) {
 		// wait async send finished.
 		if nil != c.writeQueue {
 			var maxWaitNum int
-			for (c.untilWrite || maxWaitNum < 10) && atomic.LoadInt32(&c.running) != idle {
+			// wait until nothing is queued and the sender is idle. The queue is looked at first:
+			// a packet only leaves the queue after the sender taking it has acquired the running flag,
+			// and a sender that released the flag re-acquires it when it finds the queue non-empty.
+			for (c.untilWrite || maxWaitNum < 10) && (len(c.writeQueue) > 0 || atomic.LoadInt32(&c.running) != idle) {
 				verifPoint(c, "close.wait")
 				maxWaitNum++
 				time.Sleep(time.Millisecond * 100)
@@ -568,6 +571,9 @@ func (c *channel) writeOnce() {
 	defer func() {
 		if err := recover(); nil != err {
 			atomic.StoreInt32(&c.running, idle)
+			// the transport failed: what is still queued can not be sent any more,
+			// drop it so that Close does not wait for it.
+			c.discardWriteQueue()
 			c.Close(AsException(err))
 		}
 	}()
@@ -632,6 +638,19 @@ func (c *channel) writeOnce() {
 
 		// no packets to send
 		break
+	}
+}
+
+// discardWriteQueue drops (and recycles) the packets that are still queued.
+func (c *channel) discardWriteQueue() {
+	for {
+		select {
+		case pkt := <-c.writeQueue:
+			pkt = pkt[:0]
+			pbytes.Put(&pkt)
+		default:
+			return
+		}
 	}
 }
 
